@@ -36,6 +36,16 @@ CHECKS = {
             "Trusted: Coq kernel, translator, harness; discovery results are inputs of the model; clap/gix_config exercised only. No axioms.",
             "Rocq/Coq proof (all flag sets x arbitrary source lists) + exhaustive differential correspondence over flags x explicit options",
             "DESIGN.md section 6 C12"),
+    "C14": (True,
+            "PARTIAL proof. Coq proofs about the DirTourist stack-machine model (any file system, listing order, watch list): every returned file is an "
+            "explicit / origin-level file or the non-empty regular .ignore/.gitignore/.hgignore of a visited directory, tagged with that directory "
+            "and project type, from a directory related to the explicit watches; skipping purges the stack. Not yet proved: equality with the "
+            "structural reachability specification and listing-order independence; these are checked on every run by evaluating the model under "
+            "two listing orders against ignore_files::from_origin on generated trees (prefix-related siblings, negations, empty files, nested VCS dirs). "
+            "One genuine defect (nested VCS metadata directories entered) found and repaired.",
+            "Trusted: Coq kernel, harness; tokio fs calls, gix_config (core.excludesFile is a model input), the IgnoreFilter model of C03. No axioms.",
+            "Rocq/Coq invariant proof over the stack machine (partial) + differential correspondence under two listing orders",
+            "DESIGN.md section 6 C14"),
     "C16": (True,
             "Coq proofs: Debug-name table round trip over the source-translated fs-kind family (all 41 kinds), Tag->SerdeTag->Tag identity "
             "over the full integer ranges, SerdeTag<->JSON-tree and whole-event round trips (any tags, any sorted metadata map), "
